@@ -36,6 +36,17 @@ def spec_pool():
     sp.append(spec('@t', {'@t': '{"x": @t}'}))
     sp.append(spec('@t', {'@t': '{"x": 1,'}))
     sp.append(spec('{\n "a": 1 // {min: 2}\n}'))
+    # valid for Check() but Example() fails half-way, at each nesting position (error paths of the example builders)
+    bad = '{} // {or: [{type: "object"}, {type: "integer"}]}'
+    sp.append(spec('[\n  ' + bad + '\n]'))
+    sp.append(spec('[\n  1,\n  ' + bad + '\n]'))
+    sp.append(spec('{\n  "k": ' + bad + '\n}'))
+    sp.append(spec('{\n  "a": [1, 2],\n  "k": [\n    ' + bad + '\n  ]\n}'))
+    sp.append(spec('[\n  {\n    "k": ' + bad + '\n  }\n]'))
+    sp.append(spec('{\n  "a": @t\n}', {'@t': '[\n  ' + bad + '\n]'}))
+    # victims: nested results where two levels hold buffers at the same time
+    sp.append(spec('{"a": {"b": 1}, "c": [1, 2]}'))
+    sp.append(spec('[[1, [2, {"x": [3]}]], {"y": {"z": []}}]'))
     return sp
 
 
